@@ -2,11 +2,12 @@ SPECIFICATION Spec
 CONSTANTS
   Sizes = {0, 1, 4095, 4096, 4097}
   Lays <- MC_BigLays
-  Modes = {"r", "rb", "w", "wb", "a", "ab", "r+", "rb+", "w+", "wb+", "a+", "ab+"}
+  Modes = {"r", "rb", "w", "wb", "a", "ab", "r+", "rb+", "w+", "wb+", "a+", "ab+", "tmp"}
   RCounts = {0, 1, 2, 4096, 5000}
   WCounts = {0, 1, 2, 4096, 5000}
   SOffs <- MC_BigSOffs
   VBufs = {"no", "full", "line"}
+  VSizes = {0}
   Extra <- MC_AllExtra
   Naive = FALSE
   Gen = FALSE
